@@ -42,6 +42,12 @@ func drawC09Config(ch chooser.Chooser) c09Config {
 	c.Threads = 2 + ch.Draw(3, "threads")
 	c.Keys = 2 + ch.Draw(3, "keys")
 	c.Limit = 1 + ch.Draw(4, "limit")
+	if ch.Draw(4, "big") == 3 {
+		// A larger cache: the recency heap is three levels deep while threads
+		// interleave (the sequential check covers deeper ones).
+		c.Keys = 6 + ch.Draw(7, "bkeys")
+		c.Limit = 5 + ch.Draw(4, "blimit")
+	}
 	c.Sized = ch.Draw(3, "sized") == 2
 	maxOps := 6
 	if c.Threads == 4 {
